@@ -244,7 +244,7 @@ LEGS = [
     Leg("parity_closure", chk_closure, strategy=s_closure, quick=16000, thorough=800000,
         doc="encode ignores the parity field; frame+parity checks to 0"),
     Leg("linearity", chk_lin, strategy=s_lin, quick=16000, thorough=800000, doc="crc(a^b)=crc(a)^crc(b)"),
-    Leg("detect_direct", chk_direct, enum=enum_direct, quick=4, thorough=120,
+    Leg("detect_direct", chk_direct, enum=enum_direct, quick=4, thorough=48,
         doc="valid frame x every weight<=3 pattern, every burst<=12 at every offset, sampled w4-5 / bursts 13-24"),
     Leg("syndrome_closure", chk_synd, enum=enum_closure, quick=1, thorough=1, exhaustive=True,
         doc="all 1..5-subsets of the implementation's single-bit syndromes are non-zero (pairs/triples meet in the middle)"),
